@@ -6,9 +6,9 @@ package main
 
 import (
 	"fmt"
-	"math"
 	"go/token"
 	"go/types"
+	"math"
 	"regexp"
 	"sort"
 	"strconv"
@@ -237,6 +237,22 @@ func init() {
 		},
 		"vfIteInt": func(in *Interp, fr *frame, fn *ssa.Function, a []value) value {
 			return in.tc.Ite(a[0].(*Term), a[1].(*Term), a[2].(*Term))
+		},
+		"vfNative": func(in *Interp, fr *frame, fn *ssa.Function, a []value) value {
+			return in.tc.False()
+		},
+		// vfExport(name, v) makes a harness-computed integer part of the witness, so the
+		// native twin can read it back with vfImport(name).
+		"vfExport": func(in *Interp, fr *frame, fn *ssa.Function, a []value) value {
+			in.res.Exports = append(in.res.Exports, exportRec{Name: in.mustStr(a[0], "vfExport"), Term: a[1].(*Term)})
+			return nil
+		},
+		"vfImport": func(in *Interp, fr *frame, fn *ssa.Function, a []value) value {
+			panic(engineErr("vfImport is only meaningful in the native twin (guard it with vfNative())"))
+		},
+		"vfSetGOMAXPROCS": func(in *Interp, fr *frame, fn *ssa.Function, a []value) value {
+			in.side["GOMAXPROCS"] = a[0].(*Term)
+			return nil
 		},
 		"vfTier": func(in *Interp, fr *frame, fn *ssa.Function, a []value) value {
 			return in.i64(int64(in.w.ex.tier))
@@ -540,7 +556,6 @@ func registerSync() {
 			in.targetPanicf(fr, "sync: unlock of unlocked mutex")
 		}
 		m.locked = false
-		in.yield("Unlock")
 		return nil
 	}
 	I["(*sync.Mutex).Lock"] = lock
@@ -569,7 +584,6 @@ func registerSync() {
 			in.targetPanicf(fr, "sync: RUnlock of unlocked RWMutex")
 		}
 		m.readers--
-		in.yield("RUnlock")
 		return nil
 	}
 	wg := func(in *Interp, p value) *wgState {
@@ -599,7 +613,6 @@ func registerSync() {
 		if w.n < 0 {
 			in.targetPanicf(fr, "sync: negative WaitGroup counter")
 		}
-		in.yield("wg.Done")
 		return nil
 	}
 	I["(*sync.WaitGroup).Wait"] = func(in *Interp, fr *frame, fn *ssa.Function, a []value) value {
@@ -615,8 +628,7 @@ func registerSync() {
 		body := &NativeFunc{name: "wg.Go", fn: func(in *Interp, _ []value) value {
 			in.callValue(f)
 			w.n--
-			in.yield("wg.Done")
-			return nil
+				return nil
 		}}
 		in.spawnNamed(fr, fr.callpos, body, nil, nil, "", true)
 		return nil
@@ -962,8 +974,7 @@ func ctxMethod(c *EngCtx, meth *types.Func) value {
 		}}
 	case "Err":
 		return &NativeFunc{name: "ctx.Err", fn: func(in *Interp, a []value) value {
-			in.yield("ctx.Err")
-			for x := c; x != nil; x = x.parent {
+				for x := c; x != nil; x = x.parent {
 				if x.err != nil {
 					return x.err
 				}
@@ -1048,8 +1059,7 @@ func registerContext() {
 	cancelFunc := func(in *Interp, c *EngCtx) value {
 		return &NativeFunc{name: "cancel", fn: func(in *Interp, a []value) value {
 			in.ctxCancel(c, in.ctxGlobal("Canceled"))
-			in.yield("cancel")
-			return nil
+				return nil
 		}}
 	}
 	I["context.WithCancel"] = func(in *Interp, fr *frame, fn *ssa.Function, a []value) value {
@@ -1071,8 +1081,7 @@ func registerContext() {
 		cf := &NativeFunc{name: "cancel", fn: func(in *Interp, a []value) value {
 			t.active = false
 			in.ctxCancel(c, in.ctxGlobal("Canceled"))
-			in.yield("cancel")
-			return nil
+				return nil
 		}}
 		return tuple{in.ctxValue(c), cf}
 	}
